@@ -154,6 +154,12 @@ def c17_jobs(prop, tier):
             for N in range(1, (3 if tier == 'quick' else 4) + 1):
                 for name in iters.FWD + iters.EDGE:
                     jobs.append(dict(common, kind='c17_iter', name=name, op='diff_' + name, N=N))
+            for N in (1, 2) if tier == 'quick' else (1, 2, 3):
+                for trait in ('Display', 'Debug'):
+                    if N < 3: jobs.append(dict(common, kind='c17_pretty', name='diff_pretty_' + trait, op='diff_pretty_' + trait.lower(), N=N, trait=trait))
+                    else:
+                        for x_ in (1, 2, 3):
+                            jobs.append(dict(common, kind='c17_pretty', name='diff_pretty_' + trait, op='diff_pretty_' + trait.lower(), N=N, trait=trait, fix_x=x_, rset=[0, 1, 4, 6]))
     return jobs
 
 
